@@ -305,7 +305,7 @@ def generate(rng, tier):
         if tier == "quick":
             chosen = [rng.choice(ps) for _ in range(3)]
         else:
-            chosen = ps if di < 150 else [rng.choice(ps) for _ in range(6)]
+            chosen = ps if di < 45 else [rng.choice(ps) for _ in range(6)]
         salt = 0
         for k, loc in chosen:
             for act in ("delete", "replace", "skip"):
